@@ -18,23 +18,26 @@ META = {
                   'A weakened memory order cannot be made to misbehave on this x86 host; it is reported through the broken static obligation and, when a traced execution shows it, as a concrete hb race.',
     'design_ref': '§6 C07, §11',
 }
-REQUIRED = ['Librfn.C07.races_sound', 'Librfn.C07.races_complete', 'Librfn.C07.raceFree_iff', 'Librfn.C07.skeleton_matches_fibre', 'Librfn.C07.all_units_seqcst', 'Librfn.C07.shared_fields_atomic', 'Librfn.C07.receivep_single_owner',
+REQUIRED = ['Librfn.C07.isr_side_never_touches_receiver_state', 'Librfn.C07.races_sound', 'Librfn.C07.races_complete', 'Librfn.C07.raceFree_iff', 'Librfn.C07.skeleton_matches_fibre', 'Librfn.C07.all_units_seqcst', 'Librfn.C07.shared_fields_atomic', 'Librfn.C07.receivep_single_owner',
             'Librfn.C07.isr_entry_touches_only_the_queue', 'Librfn.C07.fibre_payload_inside_publish', 'Librfn.C07.ring_sc_race_free',
             'Librfn.C07.ring_sc_race_free_all', 'Librfn.C07.mq_sc_race_free']
 HB_MODULE = 'Librfn.Props.C07HB'
 
 
-def build_tracer(ctx):
+def build_tracer(ctx, fallback=False):
+    """fallback=True: the library's own pre-C11 configuration (-D__STDC_NO_ATOMICS__, include/librfn/atomic.h)"""
     R, H = vlib.REPO, os.path.join(vlib.VERIF, 'harness')
     objs = []
+    cfg = ['-D__STDC_NO_ATOMICS__'] if fallback else []
+    tag = 'fb' if fallback else ''
     for name, src, extra in (('ringbuf', R + '/librfn/ringbuf.c', []), ('messageq', R + '/librfn/messageq.c', []), ('list', R + '/librfn/list.c', []),
                              ('fibre', H + '/h_race_fibre.c', ['-I' + R + '/librfn'])):
-        o = os.path.join(ctx.tmp, f'tsan_{name}.o')
-        rc, out, err = vlib.sh(['gcc', '-c', '-O1', '-g', '-fsanitize=thread', '-I' + R + '/include'] + extra + [src, '-o', o], timeout=300)
+        o = os.path.join(ctx.tmp, f'tsan{tag}_{name}.o')
+        rc, out, err = vlib.sh(['gcc', '-c', os.environ.get('VERIF_OPT', '-O0'), '-g', '-fsanitize=thread', '-I' + R + '/include'] + cfg + extra + [src, '-o', o], timeout=300)
         if rc != 0:
             raise vlib.Infra(f'cannot compile {src} with access tracing: ' + (out + err)[-800:])
         objs.append(o)
-    exe, log = ctx.cc('h_race', [H + '/h_race.c'] + objs + [R + '/librfn/util.c', R + '/librfn/posix/time_posix.c'], ['-lpthread'], san=False)
+    exe, log = ctx.cc('h_race' + tag, [H + '/h_race.c'] + objs + [R + '/librfn/util.c', R + '/librfn/posix/time_posix.c'], ['-lpthread'] + cfg, san=False)
     if not exe:
         raise vlib.Infra('race tracer does not link: ' + log[-1500:])
     return exe
@@ -52,6 +55,11 @@ def gen(rng, kind):
         msgs = rng.range(1, 2 * d + 2)
         cfg = f'mq {d} {rng.choice([1, 4])} {ns} {msgs} {rng.range(1, ns * msgs + 3)}'
         nt, steps = ns + 1, rng.range(6, 16 * ns * msgs)
+    elif kind == 'evq':
+        nisr = rng.range(1, 3)
+        calls = rng.range(2, 9)
+        cfg = f'evq {nisr} {calls} {rng.range(3, 14)}'
+        nt, steps = nisr + 1, rng.range(10, 60 * nisr * calls // 2 + 20)
     else:
         nisr = rng.range(1, 3)
         calls = rng.range(3, 12) if nisr > 1 else rng.range(9, 20)      # >= 9 requests in total so that run-queue slots are re-used
@@ -94,43 +102,28 @@ def analyse(ctx, exe, scs, timeout=600):
     return info, res
 
 
-def run(ctx):
-    rng = vlib.Rng(ctx.seed)
-    for unit, err in skeleton.regen_skeleton(['ringbuf', 'messageq', 'fibre']):
-        ctx.broken.append(f'tie S: atomic-operation skeleton of {unit} could not be extracted from the source: {err}')
-    mods = ['Librfn.Props.C07']
-    if os.path.exists(os.path.join(vlib.LEAN, HB_MODULE.replace('.', '/') + '.lean')):
-        mods.append(HB_MODULE)
-    ctx.prove(mods, REQUIRED)
-    if not ctx.build_model():
-        return
-    exe = build_tracer(ctx)
-    n = (60, 60, 40) if ctx.tier == 'quick' else (1500, 1500, 800)
-    if ctx.broken:
-        n = tuple(4 * x for x in n)           # static obligations broke: search harder for a traced race
-    scs = [gen(rng, 'ring') for _ in range(n[0])] + [gen(rng, 'mq') for _ in range(n[1])] + [gen(rng, 'fibre') for _ in range(n[2])]
+def campaign(ctx, exe, scs, label, tot_orders, stats):
     info, res = analyse(ctx, exe, scs)
-    tot_orders, nev, clean = {}, 0, 0
     for i, s in enumerate(scs):
         readable, orders, crashed = info[i]
-        nev += len(readable)
+        stats['events'] += len(readable)
         for k, v in orders.items():
             tot_orders[k] = tot_orders.get(k, 0) + v
-        ctx.count((s['cfg'], tuple(s['sched'])), nontrivial=any(l.startswith('P') for l in readable))
+        ctx.count((label, s['cfg'], tuple(s['sched'])), nontrivial=any(l.startswith('P') for l in readable))
         if crashed:
             ctx.notes.append(f'tracer: {crashed[0]} on {s["cfg"]}')
             if not any(b.startswith('race tracer') for b in ctx.broken):
-                ctx.broken.append(f'race tracer: scenario did not complete ({crashed[0]}) cfg="{s["cfg"]}"')
+                ctx.broken.append(f'race tracer ({label}): scenario did not complete ({crashed[0]}) cfg="{s["cfg"]}"')
             continue
         r = res[i] if i < len(res) else 'races ?'
         m = re.match(r'races (\d+)(.*)', r)
         if not m:
             ctx.broken.append('happens-before detector produced no verdict: ' + r); break
         if int(m.group(1)) == 0:
-            clean += 1
+            stats['clean'] += 1
             continue
         a, b = [int(x) for x in m.group(2).split()[0].split('-')]
-        # shrink the schedule while the same kind of race remains
+        # shrink the schedule while a race remains
         def fails(toks):
             inf, rr = analyse(ctx, exe, [dict(s, sched=toks)], 120)
             return bool(rr) and not rr[0].startswith('races 0') and not inf[0][2]
@@ -142,20 +135,45 @@ def run(ctx):
         else:
             small = s['sched']
         ctx.violation({'obligation': 'happens-before: two conflicting plain accesses by different threads are not ordered through the atomic operations executed between them',
-                       'scenario': s['cfg'], 'schedule': small, 'first_access': readable[a], 'second_access': readable[b],
+                       'build': label, 'scenario': s['cfg'], 'schedule': small, 'first_access': readable[a], 'second_access': readable[b],
                        'events_between': readable[a:b + 1][:80], 'detector_output': rr[0] if rr else r,
                        'note': 'E <thread> <kind> <object> <memory order as executed> / P <thread> <r|w> <object+offset> <size>; cannot be made to misbehave on x86, the trace is the witness',
                        'how_to_rerun': f'./check {ctx.pid} --replay <this file>'},
                       key='race:' + re.sub(r'[^\w.+]', '_', readable[a].split()[3]) + ':' + s['cfg'].split()[0])
         break
+
+
+def run(ctx):
+    rng = vlib.Rng(ctx.seed)
+    for unit, err in skeleton.regen_skeleton(['ringbuf', 'messageq', 'fibre']):
+        ctx.broken.append(f'tie S: atomic-operation skeleton of {unit} could not be extracted from the source: {err}')
+    mods = ['Librfn.Props.C07']
+    if os.path.exists(os.path.join(vlib.LEAN, HB_MODULE.replace('.', '/') + '.lean')):
+        mods.append(HB_MODULE)
+    ctx.prove(mods, REQUIRED)
+    if not ctx.build_model():
+        return
+    n = (60, 60, 40, 40) if ctx.tier == 'quick' else (1500, 1500, 800, 800)
+    if ctx.broken:
+        n = tuple(4 * x for x in n)           # static obligations broke: search harder for a traced race
+    scs = [gen(rng, 'ring') for _ in range(n[0])] + [gen(rng, 'mq') for _ in range(n[1])] + [gen(rng, 'fibre') for _ in range(n[2])] + \
+          [gen(rng, 'evq') for _ in range(n[3])]
+    tot_orders, stats = {}, {'events': 0, 'clean': 0}
+    campaign(ctx, build_tracer(ctx), scs, 'C11 <stdatomic.h> configuration', tot_orders, stats)
+    if not ctx.violations:
+        # the library's own pre-C11 configuration of include/librfn/atomic.h (-D__STDC_NO_ATOMICS__): same code paths, other macros
+        half = scs[::2]
+        campaign(ctx, build_tracer(ctx, fallback=True), half, 'fallback configuration -D__STDC_NO_ATOMICS__', tot_orders, stats)
+        ctx.cov['fallback_configuration_scenarios'] = len(half)
+    nev, clean = stats['events'], stats['clean']
     weak = {k: v for k, v in tot_orders.items() if k != 'seq_cst'}
     if weak and not ctx.violations:
         ctx.broken.append(f'dynamic cross-check: atomic operations executed with memory orders other than seq_cst: {weak} (the static table says all seq_cst)')
     ctx.cov['traces_validated_against_impl'] = clean
     ctx.cov['events_traced'] = nev
     ctx.cov['memory_orders_executed'] = tot_orders
-    ctx.cov['scenarios'] = {'ring': n[0], 'mq': n[1], 'fibre': n[2]}
-    for s in (scs[0], scs[n[0]], scs[-1]):
+    ctx.cov['scenarios'] = {'ring': n[0], 'mq': n[1], 'fibre': n[2], 'evq': n[3]}
+    for s in (scs[0], scs[n[0]], scs[n[0] + n[1]], scs[-1]):
         ctx.sample({'scenario': s['cfg'], 'schedule_prefix': ' '.join(s['sched'][:30])})
     ctx.cov['rule'] = ('scenario = (structure, sizes, per-thread scripts) x random schedule (one segment per token, a thread yields before and after every atomic operation); '
                        'ring: len 2..16 with wrap-around; message queue: depth 1..4, 1..3 senders, slots re-used; fibre: 1..3 interrupt contexts posting >= 9 wake-ups while the main context runs scheduler passes; '
@@ -169,7 +187,7 @@ def replay(ctx, path):
         print('replay names a broken obligation, not a trace:', r.get('obligation')); return 1
     if not ctx.build_model():
         return 2
-    exe = build_tracer(ctx)
+    exe = build_tracer(ctx, fallback='fallback' in r.get('build', ''))
     info, res = analyse(ctx, exe, [{'cfg': r['scenario'], 'sched': r['schedule']}], 120)
     print(res[0] if res else 'no verdict')
     return 0 if res and res[0].startswith('races 0') else 1
